@@ -112,22 +112,27 @@ def run(ctx) -> None:
     # comprehension or by a loop
     from ..flow import origins as _orig
 
-    rootp = ([a.arg for a in wk.node.args.args if a.arg != "self"] or ["root"])[0]
-    binders = {}
-    for n in ast.walk(wk.node):
-        if isinstance(n, ast.comprehension) and isinstance(n.target, ast.Name):
-            binders[n.target.id] = n.iter
-        if isinstance(n, ast.For) and isinstance(n.target, ast.Name):
-            binders[n.target.id] = n.iter
-    joins = [n for n in ast.walk(wk.node) if isinstance(n, ast.Call) and ast.unparse(n.func) == "os.path.join"]
-    okj = bool(joins)
-    for j in joins:
-        good = len(j.args) == 2 and ast.unparse(j.args[0]) == rootp and isinstance(j.args[1], ast.Attribute) and j.args[1].attr == "name" and isinstance(j.args[1].value, ast.Name)
-        if good:
-            it = binders.get(j.args[1].value.id)
-            good = it is not None and all(b == "self.listdir" or (b == f"param:{rootp}" and w == ("self.listdir",)) for b, w in _orig(wk.node, it)) and ast.unparse(it).replace(" ", "") in (f"self.listdir({rootp})",) or (it is not None and all(w[-1:] == ("self.listdir",) and b == f"param:{rootp}" for b, w in _orig(wk.node, it)))
-        okj = okj and bool(good)
-    other = [n for n in ast.walk(wk.node) if isinstance(n, ast.JoinedStr) or (isinstance(n, ast.BinOp) and isinstance(n.op, ast.Add) and rootp in ast.unparse(n))]
+    rootp0 = ([a.arg for a in wk.node.args.args if a.arg != "self"] or ["root"])[0]
+    okj, other, njoin = True, [], 0
+    # walk() itself and the private helpers it hands its root to (the listing may be made in one of them)
+    for sfi, rootp in P.param_scopes("DirectorySnapshot", "walk", rootp0, skip=("walk", "stat", "listdir")):
+        fn = sfi.node
+        binders = {}
+        for n in ast.walk(fn):
+            if isinstance(n, ast.comprehension) and isinstance(n.target, ast.Name):
+                binders[n.target.id] = n.iter
+            if isinstance(n, ast.For) and isinstance(n.target, ast.Name):
+                binders[n.target.id] = n.iter
+        joins = [n for n in ast.walk(fn) if isinstance(n, ast.Call) and ast.unparse(n.func) == "os.path.join"]
+        njoin += len(joins)
+        for j in joins:
+            good = len(j.args) == 2 and ast.unparse(j.args[0]) == rootp and isinstance(j.args[1], ast.Attribute) and j.args[1].attr == "name" and isinstance(j.args[1].value, ast.Name)
+            if good:
+                it = binders.get(j.args[1].value.id)
+                good = it is not None and all(b == "self.listdir" or (b == f"param:{rootp}" and w == ("self.listdir",)) for b, w in _orig(fn, it)) and ast.unparse(it).replace(" ", "") in (f"self.listdir({rootp})",) or (it is not None and all(w[-1:] == ("self.listdir",) and b == f"param:{rootp}" for b, w in _orig(fn, it)))
+            okj = okj and bool(good)
+        other += [n for n in ast.walk(fn) if isinstance(n, ast.JoinedStr) or (isinstance(n, ast.BinOp) and isinstance(n.op, ast.Add) and rootp in ast.unparse(n))]
+    okj = okj and njoin >= 1
     ctx.check(okj and not other, RP, "DirectorySnapshot.walk builds paths from the root as given", "snapshot paths are not all join(root, entry.name) over the entries of listdir(root)", wk.loc)
     pe = P.cls("PollingEmitter")
     init_src = ast.unparse(pe.methods["__init__"].node)
